@@ -43,9 +43,9 @@ func positions() []Position {
 
 // positions of the sequence sweep
 func seqPositions(thorough bool) []Position {
-	out := []Position{{2019, 4, 15, 11}, {2019, 12, 31, 23}, {2020, 2, 29, 0}}
+	out := []Position{{2019, 4, 15, 11}, {2019, 12, 31, 23}, {2020, 2, 29, 0}, {2020, 1, 1, 0}}
 	if thorough {
-		out = append(out, Position{2020, 1, 1, 0}, Position{2019, 2, 28, 23}, Position{2019, 4, 30, 23})
+		out = append(out, Position{2019, 2, 28, 23}, Position{2019, 4, 30, 23})
 	}
 	return out
 }
@@ -125,10 +125,10 @@ func validSeq(s string, needCompact bool) bool {
 func forEachCase(part string, thorough bool, f func(c *Case) bool) {
 	switch part {
 	case "h4":
-		maxLen := 4
+		maxLen := 5
 		pos := []Position{{2019, 4, 15, 11}, {2019, 12, 31, 23}}
 		if thorough {
-			maxLen = 5
+			maxLen = 6
 		}
 		for _, steps := range sequences("Fcro", maxLen, true) {
 			for _, p := range pos {
@@ -178,6 +178,16 @@ func forEachCase(part string, thorough bool, f func(c *Case) bool) {
 				}
 			}
 		}
+		// (C) wide shape: series ids across the 65536 boundary
+		wideSteps := []string{"Fr"}
+		if thorough {
+			wideSteps = []string{"Fr", "FFr", "FrFr", "Fror"}
+		}
+		for _, steps := range wideSteps {
+			if !f(&Case{Part: part, Fam: "wide", Pos: Position{2019, 12, 31, 23}, Slots: "s29-30", Shape: "wide", Steps: steps}) {
+				return
+			}
+		}
 		// (B) sequence sweep
 		maxLen := 4
 		if thorough {
@@ -186,9 +196,6 @@ func forEachCase(part string, thorough bool, f func(c *Case) bool) {
 		for _, steps := range sequences("Fwro", maxLen, false) {
 			for _, p := range seqPositions(thorough) {
 				for _, pat := range []string{"edges", "s29-30"} {
-					if pat != "edges" && !thorough {
-						continue
-					}
 					if !f(&Case{Part: part, Fam: "sequences", Pos: p, Slots: pat, Shape: "full", Steps: steps}) {
 						return
 					}
